@@ -21,6 +21,7 @@ type KnownFinding struct {
 	What       string `json:"what"`
 	Commit     string `json:"commit,omitempty"`
 	Input      string `json:"input,omitempty"`
+	Bounded    string `json:"bounded,omitempty"` // tag printed by a bounded stand-in when this finding reproduces
 }
 
 type PropertyMeta struct {
@@ -28,6 +29,7 @@ type PropertyMeta struct {
 	Assumptions []string `json:"assumptions"`
 	Bounded     []BoundedSpec `json:"bounded"` // bounded stand-ins to run
 	Required    []string `json:"required_labels"`
+	Level       string   `json:"level"` // evidence level when not "proof" (e.g. "other": decisive clause only bounded)
 	DeadReturns []string `json:"dead_returns"` // cover queries expected to be unsat (dead code by contract)
 	ExtraFuncs  []string `json:"extra_functions"`
 }
@@ -124,6 +126,7 @@ type CheckResult struct {
 	ToolError   string
 	Uncontracted []string
 	CoverSat    int
+	Level       string
 	CoverRelaxed int
 	CoverUnknown int
 	CoverUnsat  []string
@@ -145,6 +148,12 @@ func loadMeta(root, prop string) PropertyMeta {
 		json.Unmarshal(data, &m)
 	}
 	m.ID = prop
+	// returns that are dead by contract in every property's view (shared list)
+	var common PropertyMeta
+	if data, err := os.ReadFile(filepath.Join(root, "specs", "scope", "common.json")); err == nil {
+		json.Unmarshal(data, &common)
+		m.DeadReturns = append(m.DeadReturns, common.DeadReturns...)
+	}
 	return m
 }
 
@@ -381,6 +390,10 @@ func runCheck(repo, root, prop, tier string, seed int) *CheckResult {
 	for _, b := range meta.Bounded {
 		br := runBounded(v, root, repo, prop, b, tier, seed)
 		res.Bounded = append(res.Bounded, br.Info)
+		for _, kl := range br.KnownLines {
+			res.Known++
+			res.Lines = append(res.Lines, kl)
+		}
 		if !br.OK {
 			res.Lines = append(res.Lines, br.Lines...)
 			if br.Known {
@@ -437,6 +450,7 @@ func runCheck(repo, root, prop, tier string, seed int) *CheckResult {
 	}
 	sort.Strings(res.Uncontracted)
 	res.Assumptions = append(res.Assumptions, meta.Assumptions...)
+	res.Level = meta.Level
 	if res.Obligations == 0 && len(meta.Bounded) == 0 {
 		res.ToolError = "no obligations generated for " + prop
 	}
@@ -511,6 +525,9 @@ func writeEvidence(root string, r *CheckResult) {
 	if r.Obligations == 0 {
 		// only bounded stand-ins ran
 		level = "other"
+	}
+	if r.Level != "" {
+		level = r.Level
 	}
 	ev := map[string]interface{}{
 		"property_id": r.Property, "tier": r.Tier, "seed": r.Seed, "level": level, "coverage": cov,
